@@ -56,9 +56,14 @@ def main():
             res["suite_passes"] = (" failed" not in outs) and (" error" not in outs.lower().replace("errors.py", "")) and ("passed" in outs)
             res["suite_s"] = round(time.time() - t)
         res["checks"] = {}
+        # the check runs in a private copy of /verif (incl. the Lean build output) so that the regenerated
+        # lean/LinOp/Generated files of the patched tree never disturb /verif itself or a builder working there
+        vcopy = f"/tmp/vcopy/{sid}"
+        os.makedirs("/tmp/vcopy", exist_ok=True)
+        sh(f"rsync -a --delete --exclude .git --exclude seeded --exclude evidence_scratch {VERIF}/ {vcopy}/")
         for p in props:
             t = time.time()
-            rcc, outc = sh(f"./check {p} --tier quick", cwd=VERIF, env={"VERIF_REPO": wt}, timeout=3000)
+            rcc, outc = sh(f"./check {p} --tier quick", cwd=vcopy, env={"VERIF_REPO": wt}, timeout=3000)
             vio = [l for l in outc.split("\n") if l.startswith("VIOLATION")]
             res["checks"][p] = {"rc": rcc, "violation_lines": vio[:3], "wall_s": round(time.time() - t),
                                 "detail": [l for l in outc.split("\n") if l.startswith("  ")][:4]}
@@ -67,6 +72,7 @@ def main():
         res["caught"] = any(c["rc"] == 1 and c["violation_lines"] for c in res["checks"].values())
     finally:
         sh(f"git -C /repo worktree remove --force {wt}")
+        sh(f"rm -rf /tmp/vcopy/{sid}")
     dst = os.path.join(VERIF, "seeded", sid)
     if res.get("confirmed"):
         os.makedirs(dst, exist_ok=True)
